@@ -52,11 +52,13 @@ class Ref:
 
 
 class Sym:
-    """symbolic object of non-scalar type identified by `term`; `over` = overlay of written fields"""
-    __slots__ = ('term', 'ty', 'over', 'variant')
+    """symbolic object of non-scalar type identified by `term`; `over` = lazily materialised / written fields,
+    `wr` = keys of `over` that were really written (the others merely cache the object's own fields)"""
+    __slots__ = ('term', 'ty', 'over', 'variant', 'wr')
 
-    def __init__(self, term, ty, over=None, variant=None):
+    def __init__(self, term, ty, over=None, variant=None, wr=None):
         self.term, self.ty, self.over, self.variant = term, ty, dict(over or {}), variant
+        self.wr = set(wr or ())
 
 
 class Clo:
@@ -104,7 +106,7 @@ def clone_val(v, memo):
     if isinstance(v, Ref):
         return Ref(clone_cell(v.cell, memo), v.path, v.mut)
     if isinstance(v, Sym):
-        return Sym(v.term, v.ty, {k: clone_val(x, memo) for k, x in v.over.items()}, v.variant)
+        return Sym(v.term, v.ty, {k: clone_val(x, memo) for k, x in v.over.items()}, v.variant, v.wr)
     if isinstance(v, Clo):
         return Clo(v.path, [clone_val(x, memo) for x in v.upvars])
     if isinstance(v, Iter):
@@ -395,8 +397,9 @@ class Interp:
         if isinstance(v, Ref):
             return self.to_term(st, self.load(st, v.cell, v.path))
         if isinstance(v, Sym):
-            if v.over and any(not self._is_lazy(v, k, x) for k, x in v.over.items()):
-                return ('upd', v.term, tuple(sorted(((str(k), self.to_term(st, x)) for k, x in v.over.items() if not self._is_lazy(v, k, x)), key=repr)))
+            ws = self.written(st, v)
+            if ws:
+                return ('upd', v.term, tuple(sorted(ws, key=repr)))
             return v.term
         if isinstance(v, Adt):
             return ('mk', v.path, v.variant, tuple(self.to_term(st, x) for x in v.xs))
@@ -414,25 +417,18 @@ class Interp:
             return ('undef',)
         raise TypeError(v)
 
-    def _is_lazy(self, s, key, x):
-        """was overlay entry x created by lazy materialisation (i.e. equals the object's own field)?"""
-        if isinstance(key, tuple):
-            t = ('vfld', s.term, key[0], key[1])
-        else:
-            t = ('fld', s.term, key)
-        if isinstance(x, tuple):
-            return x == t
-        if isinstance(x, Sym):
-            return x.term == t and not any(not self._is_lazy(x, k, y) for k, y in x.over.items())
-        if isinstance(x, Ref):
-            tv = x.cell.v
-            if isinstance(tv, Sym):
-                return tv.term == t and not any(not self._is_lazy(tv, k, y) for k, y in tv.over.items())
-            if isinstance(tv, tuple):
-                return tv == t
-        if isinstance(x, Tup):
-            return all(self._is_lazy(Sym(('fld', s.term, key if not isinstance(key, tuple) else key[1]), ''), str(i), y) for i, y in enumerate(x.xs)) if not isinstance(key, tuple) else False
-        return False
+    def written(self, st, v, prefix=''):
+        """(path, value term) of every field really written into the symbolic object v (recursively)"""
+        out = []
+        for k, x in v.over.items():
+            name = '%s%s' % (prefix, k if not isinstance(k, tuple) else '/'.join(str(i) if not isinstance(i, tuple) else T.show(i) for i in k))
+            if k in v.wr:
+                out.append((name, self.to_term(st, x)))
+            elif isinstance(x, Sym):
+                out.extend(self.written(st, x, name + '.'))
+            elif isinstance(x, Ref) and isinstance(x.cell.v, Sym) and not x.path:
+                out.extend(self.written(st, x.cell.v, name + '.'))
+        return out
 
     # ---- memory
     def load(self, st, cell, path):
@@ -585,6 +581,7 @@ class Interp:
                 if parent.variant is not None:
                     key = (parent.variant, key)
                 parent.over[key] = val
+                parent.wr.add(key)
                 return
             if isinstance(parent, Clo):
                 parent.upvars[idx] = val
@@ -599,7 +596,7 @@ class Interp:
                 for kk in [kk for kk in parent.over if isinstance(kk, tuple) and kk[0] == '#elem']:
                     del parent.over[kk]
                 parent.over[('#elem', idx)] = val
-                parent.over[('#written',)] = TRUE
+                parent.wr.add(('#elem', idx))
                 return
             if isinstance(parent, Tup):
                 # symbolic index into a concrete array: havoc all elements that may alias
